@@ -9,7 +9,7 @@ import (
 	"os"
 	"strconv"
 
-	_ "verif/harness/engines"
+	"verif/harness/engines"
 	"verif/harness/runner"
 )
 
@@ -60,6 +60,9 @@ func main() {
 		fs.Parse(os.Args[2:])
 		log.SetOutput(io.Discard)
 		os.Exit(runner.ShrinkReplay(*prop, *tier, *dir))
+	case "flatten":
+		log.SetOutput(io.Discard)
+		engines.DebugFlatten(os.Args[2], os.Args[3])
 	case "props":
 		for _, p := range runner.Props() {
 			fmt.Println(p)
